@@ -45,3 +45,17 @@ Theorem C04_write_appends_at_the_reported_offset :
          rs_n resp = Z.of_nat (length (marshal r')) /\ r' = stamp tbl uni_lower (w_info st') r).
 Proof. intros tbl ul conf name_of scale zsize info_rec Hinj. exact (w_write_spec tbl ul conf name_of Hinj scale zsize info_rec). Qed.
 Print Assumptions C04_write_appends_at_the_reported_offset.
+
+(** the last sentence, for plain streams: whatever offset Unmarshal reports for a record - also
+    after skipping junk between records - is a position from which a fresh reader returns that
+    same record: same record, same error state, same rest of the stream, reported at offset 0 of
+    the stream opened there (only the finding about the skipped bytes is gone) *)
+Require Import Model.Bytes Model.Policy Model.Stream Model.Record Gen.FieldTable Proofs.NormalizeProofs Proofs.OffsetProofs.
+Theorem C04_a_reported_offset_is_a_record_position :
+  forall uni_lower uni_upper time_ok ip_ok uri_ok wid_ok mime_dec H b32 b64 http_req_ok http_resp_ok o s off r e fnd s',
+    unmarshal_plain field_table required_fields uni_lower uni_upper time_ok ip_ok uri_ok wid_ok mime_dec H b32 b64
+                    http_req_ok http_resp_ok o s = (off, URec r e fnd s') ->
+    exists fnd', unmarshal_plain field_table required_fields uni_lower uni_upper time_ok ip_ok uri_ok wid_ok mime_dec H b32 b64
+                                 http_req_ok http_resp_ok o (discard off s) = (0%nat, URec r e fnd' s').
+Proof. intros. eapply reported_offset_is_a_record_position; [exact gen_table_ok|eassumption]. Qed.
+Print Assumptions C04_a_reported_offset_is_a_record_position.
